@@ -106,6 +106,12 @@ def stepEcho (d : Nat) (s : Topo) (op : Op) : Topo × Bool :=
     | none => (r.1, true)
   else r
 
+/-- a raw request (Model/C15.lean `decodeOp`: labels, annotations, pod listing, mutating default-filling) with the echo. -/
+def stepRawEcho (d : Nat) (s : Topo) (r : RawOp) : Topo × Bool :=
+  match decodeOp s r with
+  | none => (s, false)
+  | some op => stepEcho d s op
+
 def runEcho (d : Nat) (s : Topo) : List Op → Topo
   | [] => s
   | op :: ops => runEcho d (stepEcho d s op).1 ops
